@@ -170,6 +170,21 @@ def h_chained(h):
     for j in range(2):
         h.close(got[j], ref(gs[j]), "chained-evaluated-at-same-g")
         h.close(top(gs[j]), ref(gs[j]), "chained-scalar")
+    # history: the same conditioning array object is refilled in place, then the inner function gets new
+    # parameters by hand - every evaluation uses the current values (no stale intermediate results)
+    g2 = [h.real(f"h{i}", 0.1, 3.0) for i in range(2)]
+    g[0], g[1] = g2[0], g2[1]
+    got2 = top(g)
+    for j in range(2):
+        h.close(got2[j], ref(g2[j]), "chained-after-refilling-the-same-array-in-place")
+    ca_old, cb_old = ca, cb
+    ca, cb = h.real("base_a2", 0.5, 2), h.real("base_b2", 0.1, 1)
+    d0.parameters = {"a": ca, "b": cb}
+    got3 = top(g)
+    for j in range(2):
+        h.close(got3[j], ref(g2[j]), "chained-after-new-inner-parameters")
+    h.close(top(g2[0]), ref(g2[0]), "chained-scalar-after-new-inner-parameters")
+    gs = g2
     # used as a distribution parameter
     fam = FAMILIES["ExpWeibull"]
     CD = shim.mod("distributions").ConditionalDistribution
